@@ -38,7 +38,7 @@ Definition fixed_leaf (k : kind) : option str :=
   end.
 
 Definition leaf_ok (k : kind) (s : str) (t : tree) : bool :=
-  (if quiet_leaf k then match sig s with [] => true | _ => false end else true) &&
+  (if quiet_leaf k && negb (blank_kind k) then match sig s with [] => true | _ => false end else true) &&
   (match fixed_leaf k with Some lit => str_eqb s lit | None => true end) &&
   (match k with KLineComment | KBlockComment => comment_sig_ok t | _ => true end).
 
@@ -322,6 +322,6 @@ Fixpoint sc (t : tree) : bool :=
   match t with
   | Leaf k s _ =>
       (* a node of an inner kind without children is dumped as a leaf with empty text *)
-      if inner_kind k then (match s with [] => true | _ => false end) && knode_ok k [] else leaf_ok k s t
-  | Inner k cs _ => inner_kind k && knode_ok k cs && forallb sc cs
+      (if inner_kind k then (match s with [] => true | _ => false end) && knode_ok k [] else leaf_ok k s t) && verbatim_ok t
+  | Inner k cs _ => inner_kind k && knode_ok k cs && forallb sc cs && verbatim_ok t
   end.
